@@ -18,10 +18,12 @@ Definition seps {A} (f : A -> sh) (sep : string) : list A -> sh :=
     | x :: r => f x (append sep (go r acc))
     end.
 
-(* text: printable ASCII except backslash, double quote and the field
-   separator as is, everything else \XXXXXX *)
+(* text: printable ASCII except backslash, double quote and the structural
+   characters ( ) [ ] ; , as is, everything else \XXXXXX *)
 Definition show_qc (c : N) (acc : string) : string :=
-  if ((32 <=? c) && (c <=? 126) && negb (c =? 92) && negb (c =? 34))%N then String (ascii_of_N c) acc
+  if ((32 <=? c) && (c <=? 126) && negb (c =? 92) && negb (c =? 34) &&
+      negb (c =? 40) && negb (c =? 41) && negb (c =? 91) && negb (c =? 93) && negb (c =? 59) && negb (c =? 44))%N
+  then String (ascii_of_N c) acc
   else String "\" (String (hexdigit (c / 1048576 mod 16)) (String (hexdigit (c / 65536 mod 16))
        (String (hexdigit (c / 4096 mod 16)) (String (hexdigit (c / 256 mod 16))
        (String (hexdigit (c / 16 mod 16)) (String (hexdigit (c mod 16)) acc)))))).
